@@ -279,9 +279,17 @@ def apply_null_settings(lf, spec, edges):
     """random-in-bounds parameter values of the null"""
     if spec.get("pi") is not None:
         lf.set_motif_probs(dict(zip(BASES, _norm_pi(spec["pi"]))))
+    th = spec.get("timehet")
+    if th:
+        # every (not excluded) rate parameter gets one value on the edge set and another on the remaining edges
+        lf.set_time_heterogeneity(edge_sets=[dict(edges=list(th["edges"]))], is_independent=False, exclude_params=list(th["exclude"]) or None)
     for p, v in sorted(spec["rates"].items()):
         if p in (spec.get("const") or []):
             lf.set_param_rule(p, is_constant=True, value=float(v))
+        elif th and p in th["values"]:
+            rest = [e for e in edges if e not in th["edges"]]
+            lf.set_param_rule(p, edges=rest, is_independent=False, init=float(v))
+            lf.set_param_rule(p, edges=list(th["edges"]), is_independent=False, init=float(th["values"][p]))
         else:
             lf.set_param_rule(p, init=float(v))
     sc = spec.get("scoped")
@@ -292,6 +300,21 @@ def apply_null_settings(lf, spec, edges):
     else:
         for e in edges:
             lf.set_param_rule("length", edge=e, init=float(spec["lengths"][e]))
+        for g in spec.get("len_groups") or []:
+            if g.get("clock"):
+                lf.set_local_clock(g["edges"][0], g["edges"][1])
+            lf.set_param_rule("length", edges=list(g["edges"]), is_independent=False, init=float(g["value"]))
+
+
+def null_lengths(spec, edges):
+    """{edge: length} the null settings amount to"""
+    if spec["len_mode"] == "equal":
+        return {e: float(spec["lengths"]) for e in edges}
+    out = {e: float(spec["lengths"][e]) for e in edges}
+    for g in spec.get("len_groups") or []:
+        for e in g["edges"]:
+            out[e] = float(g["value"])
+    return out
 
 
 def apply_alt_scope(lf, scope):
@@ -301,8 +324,25 @@ def apply_alt_scope(lf, scope):
         lf.set_param_rule(scope["par"], is_independent=True)
     elif scope["mode"] == "shared":
         lf.set_param_rule(scope["par"], edges=list(scope["edges"]), is_independent=False)
+    elif scope["mode"] == "split":
+        for g, ind in zip(scope["groups"], scope["indep"]):
+            lf.set_param_rule(scope["par"], edges=list(g), is_independent=bool(ind))
+    elif scope["mode"] == "timehet":
+        sets = [dict(edges=list(g), is_independent=bool(ind)) for g, ind in zip(scope["groups"], scope["indep"])]
+        lf.set_time_heterogeneity(edge_sets=sets, is_independent=False, exclude_params=list(scope["exclude"]) or None)
+    elif scope["mode"] == "timehet-max":
+        lf.set_time_heterogeneity(is_independent=True, exclude_params=list(scope["exclude"]) or None)
     else:
         lf.set_param_rule(scope["par"], edges=list(scope["edges"]), is_independent=True)
+
+
+def apply_alt_lengths(lf, groups):
+    """length constraints of the alt: groups of edges sharing one length (a refinement of the null's constraints)"""
+    for g in groups or []:
+        if g.get("clock"):
+            lf.set_local_clock(g["edges"][0], g["edges"][1])
+        else:
+            lf.set_param_rule("length", edges=list(g["edges"]), is_independent=False)
 
 
 def read_state(lf, params, edges):
@@ -429,18 +469,83 @@ def pred_pair(draw):
     return {"kind": "pred", "preds": null_preds}, {"kind": "pred", "preds": alt_preds}, "refine"
 
 
-def _null_settings(draw, mspec, edges, free_pi, allow_scoped=True):
+# sibling tips below an internal node (set_local_clock: "only valid for tips connected to the same node"; with the root as
+# that node the clade would be the whole tree)
+CLOCK_PAIRS = {"t3": [], "t4": [("a", "b")], "t4r": [("a", "b"), ("c", "d")], "t5": [("a", "b"), ("d", "e")], "t5c": [("a", "b")]}
+
+
+def _len_groups(draw, edges, tkey):
+    """1-2 disjoint groups of edges sharing one length; a group is a local clock (sibling tips) or any >= 2 edges"""
+    groups, used = [], set()
+    for _ in range(draw(st.integers(1, 2))):
+        avail = [e for e in edges if e not in used]
+        pairs = [pr for pr in CLOCK_PAIRS[tkey] if pr[0] not in used and pr[1] not in used]
+        if pairs and draw(st.booleans()):
+            a, b = draw(st.sampled_from(pairs))
+            g = {"edges": [a, b], "clock": True, "value": _length(draw)}
+        elif len(avail) >= 2:
+            g = {"edges": _subset(draw, avail, 2, len(avail)), "clock": False, "value": _length(draw)}
+        else:
+            break
+        groups.append(g)
+        used.update(g["edges"])
+    return groups
+
+
+def _alt_len_groups(draw, null, edges, tkey):
+    """length constraints of the alt that the null's constraints imply (so the null stays inside the alt)"""
+    if null["len_mode"] == "free" or draw(st.integers(0, 2)) != 0:
+        return []
+    if null["len_mode"] == "equal":
+        return [{"edges": g["edges"], "clock": g["clock"]} for g in _len_groups(draw, edges, tkey)]
+    out = []
+    for g in null.get("len_groups") or []:
+        k = draw(st.integers(0, 2))
+        if k == 0:
+            continue
+        if k == 1 or len(g["edges"]) < 3:
+            out.append({"edges": list(g["edges"]), "clock": bool(g.get("clock"))})
+        else:
+            out.append({"edges": _subset(draw, list(g["edges"]), 2, len(g["edges"]) - 1), "clock": False})
+    return out
+
+
+def _refine(draw, edges, S):
+    """groups of edges refining the partition {S, edges - S}: each part is kept or cut in two; the last cell may be left
+    implicit (the edges no rule names keep sharing the original parameter). Returns (groups, independent-flags)"""
+    cells = []
+    for part in ([e for e in edges if e in S], [e for e in edges if e not in S]):
+        if len(part) >= 2 and draw(st.integers(0, 2)) != 0:
+            g1 = _subset(draw, part, 1, len(part) - 1)
+            cells += [g1, [e for e in part if e not in g1]]
+        elif part:
+            cells.append(list(part))
+    groups = cells[:-1] if len(cells) > 1 and draw(st.booleans()) else cells
+    indep = [len(g) >= 2 and draw(st.integers(0, 3)) == 0 for g in groups]
+    return groups, indep
+
+
+def _null_settings(draw, mspec, edges, free_pi, allow_scoped=True, tkey="t3"):
     params = model_params(mspec)
-    spec = {"rates": {p: _rate(draw) for p in params}, "pi": _pi(draw) if free_pi else None, "scoped": None}
-    if allow_scoped and params and len(edges) >= 2 and draw(st.integers(0, 4)) == 0:
-        spec["scoped"] = {"par": draw(st.sampled_from(params)), "edges": _subset(draw, edges, 1, len(edges) - 1), "value": _rate(draw)}
+    spec = {"rates": {p: _rate(draw) for p in params}, "pi": _pi(draw) if free_pi else None, "scoped": None, "timehet": None}
+    if allow_scoped and params and len(edges) >= 2:
+        k = draw(st.integers(0, 9))
+        if k <= 1:
+            spec["scoped"] = {"par": draw(st.sampled_from(params)), "edges": _subset(draw, edges, 1, len(edges) - 1), "value": _rate(draw)}
+        elif k == 2:
+            excl = _subset(draw, params, 0, len(params) - 1) if len(params) >= 2 and draw(st.booleans()) else []
+            spec["timehet"] = {"edges": _subset(draw, edges, 1, len(edges) - 1), "exclude": excl, "values": {p: _rate(draw) for p in params if p not in excl}}
     spec["const"] = _const_rates(draw, spec, params)
-    if draw(st.integers(0, 3)) == 0:
+    k = draw(st.integers(0, 7))
+    if k <= 1:
         spec["len_mode"] = "equal"
         spec["lengths"] = _length(draw)
     else:
         spec["len_mode"] = "free"
         spec["lengths"] = {e: _length(draw) for e in edges}
+        if k == 2 and len(edges) >= 3:
+            spec["len_mode"] = "groups"
+            spec["len_groups"] = _len_groups(draw, edges, tkey)
     return spec
 
 
@@ -450,7 +555,7 @@ CONST_VALUES = [3.7, 0.2, 6.0, 0.12, 2.5, 0.35, 11.0]
 def _const_rates(draw, spec, params):
     """names of null rate parameters held constant through an unscoped rule (about 30 % of the nulls that have rate
     parameters); their values are moved well away from the default 1.0"""
-    free = [p for p in params if not (spec["scoped"] and spec["scoped"]["par"] == p)]
+    free = [p for p in params if not (spec["scoped"] and spec["scoped"]["par"] == p) and not (spec.get("timehet") and p in spec["timehet"]["values"])]
     if not free or draw(st.integers(0, 9)) >= 4:
         return []
     chosen = _subset(draw, free, 1, len(free) if draw(st.booleans()) else 1)
@@ -481,31 +586,40 @@ def init_cases(draw):
         null_free = draw(st.booleans())
         alt_free = True if null_free else draw(st.booleans())
     null = {"model": null_m, "free_pi": null_free}
-    null.update(_null_settings(draw, null_m, edges, null_free and not null_uniform))
+    null.update(_null_settings(draw, null_m, edges, null_free and not null_uniform, tkey=tkey))
     aparams = model_params(alt_m)
     scope = None
     want_scope = fam == "same" or draw(st.integers(0, 2)) == 0
+    # the edge set on which the null holds second values (one parameter, or every parameter of a time-heterogeneous null)
+    S = (null["scoped"] or null["timehet"] or {}).get("edges")
     if want_scope and aparams and len(edges) >= 2:
         par = draw(st.sampled_from(aparams))
-        if null["scoped"]:
-            mode = draw(st.sampled_from(["indep", "same-as-null"]))
-            if mode == "indep":
-                scope = {"par": par, "mode": "indep", "edges": edges}
-            else:
-                # shared on the null's own edge subset, for a parameter that covers the null's scoped parameter
-                scope = {"par": par, "mode": "shared", "edges": list(null["scoped"]["edges"]), "same_as_null": True}
+        mode = draw(st.sampled_from(["indep", "same-as-null", "split", "split", "timehet", "timehet-max"] if S else ["indep", "shared", "subset-indep", "split", "split", "timehet", "timehet-max"]))
+        if mode == "indep":
+            scope = {"par": par, "mode": "indep", "edges": edges}
+        elif mode == "same-as-null":
+            # shared on the null's own edge subset, for a parameter that covers the null's scoped parameter
+            scope = {"par": par, "mode": "shared", "edges": list(S), "same_as_null": True}
+        elif mode == "shared":
+            scope = {"par": par, "mode": "shared", "edges": _subset(draw, edges, 1, len(edges) - 1)}
+        elif mode == "subset-indep":
+            scope = {"par": par, "mode": "subset-indep", "edges": _subset(draw, edges, 2, len(edges) - 1)}
+        elif mode == "split":
+            groups, indep = _refine(draw, edges, S or edges)
+            scope = {"par": par, "mode": "split", "groups": groups, "indep": indep}
         else:
-            mode = draw(st.sampled_from(["indep", "shared", "subset-indep"]))
-            if mode == "indep":
-                scope = {"par": par, "mode": "indep", "edges": edges}
-            elif mode == "shared":
-                scope = {"par": par, "mode": "shared", "edges": _subset(draw, edges, 1, len(edges) - 1)}
+            excl = _subset(draw, aparams, 0, len(aparams) - 1) if len(aparams) >= 2 and draw(st.integers(0, 2)) == 0 else []
+            if mode == "timehet":
+                groups, indep = _refine(draw, edges, S or edges)
+                scope = {"par": None, "mode": "timehet", "groups": groups, "indep": indep, "exclude": excl}
             else:
-                scope = {"par": par, "mode": "subset-indep", "edges": _subset(draw, edges, 2, len(edges) - 1)}
+                scope = {"par": None, "mode": "timehet-max", "exclude": excl}
     if fam == "same" and scope is None and null["len_mode"] != "equal":
         null["len_mode"] = "equal"
         null["lengths"] = _length(draw)
-    return {"tree": tkey, "rows": rows, "family": pkind, "null": null, "alt": {"model": alt_m, "free_pi": alt_free, "scope": scope}}
+        null.pop("len_groups", None)
+    alt = {"model": alt_m, "free_pi": alt_free, "scope": scope, "len_groups": _alt_len_groups(draw, null, edges, tkey)}
+    return {"tree": tkey, "rows": rows, "family": pkind, "null": null, "alt": alt}
 
 
 # --------------------------------------------------------------- init execute
@@ -519,10 +633,15 @@ def _check_tree(lf, tkey):
 def null_edge_rates(spec, params, edges):
     out = {}
     sc = spec.get("scoped")
+    th = spec.get("timehet")
     for e in edges:
         r = {p: float(spec["rates"][p]) for p in params}
         if sc and e in sc["edges"]:
             r[sc["par"]] = float(sc["value"])
+        if th and e in th["edges"]:
+            for p, v in th["values"].items():
+                if p not in (spec.get("const") or []):
+                    r[p] = float(v)
         out[e] = r
     return out
 
@@ -548,7 +667,11 @@ def exec_init(case) -> Soft:
     circ = "extra-predicate-inside-null-parameter" if extra_inside else {"extra": "extra-predicate", "refine": "refined-predicates", "struct": "named", "same": "named"}[family]
     # a scoped alt parameter whose cells do not lie inside one null parameter's cells, so no null value is its source
     # (structure and scoping change together)
-    unsourced = bool(scope) and not any(acells[scope["par"]] <= cs for cs in ncells.values())
+    if scope and scope["par"] is None:  # time-heterogeneous alt: every rate parameter outside exclude is scoped
+        scoped_pars = [p for p in aparams if p not in scope["exclude"]]
+    else:
+        scoped_pars = [scope["par"]] if scope else []
+    unsourced = any(not any(acells[p] <= cs for cs in ncells.values()) for p in scoped_pars)
     scirc = "scoped-parameter-absent-from-null" if unsourced else "scoped" if scope else "global"
 
     ok, null = s.call("null/build", make_lf, null_m, null_c["free_pi"], newick, rows)
@@ -564,11 +687,24 @@ def exec_init(case) -> Soft:
     ok, _ = s.call(f"alt/scope:{scope['mode'] if scope else 'none'}", apply_alt_scope, alt, scope)
     if not ok:
         return s
+    ok, _ = s.call("alt/length-groups", apply_alt_lengths, alt, alt_c.get("len_groups"))
+    if not ok:
+        return s
     ok, nfp = s.call("nfp", lambda: (null.get_num_free_params(), alt.get_num_free_params()))
     if not ok:
         return s
     pair_name = (null_m.get("name", "user"), alt_m.get("name", "user"))
     s.cls(f"family:{family}", f"tree:{tkey}", f"alt-scope:{scope['mode'] if scope else 'none'}", f"null-lengths:{null_c['len_mode']}")
+    if null_c.get("timehet"):
+        s.cls("null:time-heterogeneous", "null:time-heterogeneous/" + ("exclude_params" if null_c["timehet"]["exclude"] else "all-parameters"))
+    if scope and scope["mode"] in ("split", "timehet"):
+        s.cls("alt-scope:refines-" + ("partitioned-null" if (null_c.get("scoped") or null_c.get("timehet")) else "global-null"))
+        if any(scope["indep"]):
+            s.cls("alt-scope:group-independent")
+    if any(g.get("clock") for g in null_c.get("len_groups") or []):
+        s.cls("null-lengths:local-clock")
+    if alt_c.get("len_groups"):
+        s.cls("alt-lengths:grouped", "alt-lengths:grouped/null-" + null_c["len_mode"])
     if family in ("struct", "same"):
         s.cls(f"pair:{pair_name[0]}<{pair_name[1]}")
     if null_c.get("scoped"):
@@ -599,7 +735,7 @@ def exec_init(case) -> Soft:
         return s
     pi0, _, _ = state
     want_rates = null_edge_rates(null_c, nparams, edges)
-    want_len = {e: float(null_c["lengths"]) if null_c["len_mode"] == "equal" else float(null_c["lengths"][e]) for e in edges}
+    want_len = null_lengths(null_c, edges)
     if null_c.get("pi") is not None:
         want_pi = _norm_pi([float(x) for x in null_c["pi"]])
     elif model_uniform(null_m):
@@ -647,47 +783,114 @@ CODON_PAIRS = [
     ("CNFGTR", "CNFGTR", "named"),
 ]
 SENSE = [a + b + c for a in "TCAG" for b in "TCAG" for c in "TCAG" if a + b + c not in ("TAA", "TAG", "TGA")]
+SENSE_SET = frozenset(SENSE)
+# models whose omega = 1 sub-model is the canonical neutral null (the same model with omega held constant)
+CODON_NEUTRAL = ["MG94HKY", "GY94", "Y98", "CNFGTR", "H04GK", "MG94GTR", "CNFHKY", "H04G"]
+
+_PRISTINE = {}  # per process: model name -> substitution model never handed to a likelihood function
+
+
+def codon_sm(name):
+    """codon models take 1-2.5 s to construct: one pristine instance per process, every case works on its own deep copy
+    (execution stays a function of the case)"""
+    import copy
+
+    from cogent3 import get_model
+
+    if name not in _PRISTINE:
+        _PRISTINE[name] = get_model(name, optimise_motif_probs=True)
+    return copy.deepcopy(_PRISTINE[name])
+
+
+@st.composite
+def codon_rows(draw, tips, lengths=(8, 12, 16, 20)):
+    """sense codons and '---': each tip keeps the base codon, changes one position (kept only when the result is a sense
+    codon), takes another codon or a gap"""
+    L = draw(st.sampled_from(list(lengths)))
+    base = draw(st.lists(st.sampled_from(SENSE), min_size=L, max_size=L))
+    rows = {}
+    for t in tips:
+        seq = []
+        for cod in base:
+            m = draw(st.integers(0, 11))
+            if m < 6:
+                seq.append(cod)
+            elif m == 11:
+                seq.append("---")
+            elif m >= 9:
+                seq.append(draw(st.sampled_from(SENSE)))
+            else:
+                pos, nb = draw(st.integers(0, 2)), draw(st.sampled_from("TCAG"))
+                c2 = cod[:pos] + nb + cod[pos + 1 :]
+                seq.append(c2 if c2 in SENSE_SET else cod)
+        rows[t] = "".join(seq)
+    return rows
 
 
 @st.composite
 def codon_cases(draw):
-    null_n, alt_n, circ = draw(st.sampled_from(CODON_PAIRS))
-    L = draw(st.sampled_from([8, 12, 16]))
-    base = draw(st.lists(st.sampled_from(SENSE), min_size=L, max_size=L))
-    rows = {}
-    for t in "abc":
-        seq = []
-        for cod in base:
-            m = draw(st.integers(0, 9))
-            seq.append(cod if m < 6 else "---" if m == 9 else draw(st.sampled_from(SENSE)))
-        rows[t] = "".join(seq)
+    tkey = draw(st.sampled_from(["t3", "t3", "t4", "t4", "t4r", "t5", "t5c"]))
+    tmodel = TREES[tkey][1]
+    edges = tree_edges(tmodel)
+    rows = draw(codon_rows(tree_tips(tmodel), lengths=(8, 12, 16)))
+    # what the null does with omega: free and global / the canonical neutral null (constant 1.0) / another constant /
+    # a second (free or constant) value on an edge subset
+    nk = draw(st.sampled_from(["free", "free", "const1", "const1", "const", "scoped", "scoped", "scoped-const1"]))
+    null_omega = None
+    if nk == "const1":
+        null_omega = {"mode": "const", "value": 1.0}
+    elif nk == "const":
+        null_omega = {"mode": "const", "value": draw(st.sampled_from([0.2, 0.5, 3.0]))}
+    elif nk.startswith("scoped"):
+        null_omega = {"mode": "scoped", "edges": _subset(draw, edges, 1, len(edges) - 1), "value": 1.0 if nk == "scoped-const1" else _rate(draw), "const": nk == "scoped-const1"}
+    if null_omega and draw(st.booleans()):
+        nm = draw(st.sampled_from(CODON_NEUTRAL))
+        null_n, alt_n, circ = nm, nm, "named"
+    else:
+        null_n, alt_n, circ = draw(st.sampled_from(CODON_PAIRS))
+    S = null_omega["edges"] if null_omega and null_omega["mode"] == "scoped" else None
     scope = None
-    if null_n == alt_n or draw(st.integers(0, 3)) == 0:
-        par = draw(st.sampled_from(["omega", "kappa"] if "HKY" in alt_n or alt_n[0] in "YH" else ["omega"]))
-        scope = {"par": par, "mode": draw(st.sampled_from(["indep", "shared"])), "edges": ["a", "b", "c"]}
-        if scope["mode"] == "shared":
-            scope["edges"] = _subset(draw, ["a", "b", "c"], 1, 2)
+    must = null_n == alt_n and not (null_omega and null_omega["mode"] == "const")
+    if must or draw(st.integers(0, 2)) == 0:
+        pars = ["omega", "omega", "kappa"] if ("HKY" in alt_n or alt_n[0] in "YH" or alt_n == "GY94") and not S else ["omega"]
+        par = draw(st.sampled_from(pars))
+        mode = draw(st.sampled_from(["indep", "split", "split"] if S else ["indep", "shared", "split"]))
+        if mode == "indep":
+            scope = {"par": par, "mode": "indep", "edges": edges}
+        elif mode == "shared":
+            scope = {"par": par, "mode": "shared", "edges": _subset(draw, edges, 1, len(edges) - 1)}
+        else:
+            groups, indep = _refine(draw, edges, S or edges)
+            scope = {"par": par, "mode": "split", "groups": groups, "indep": indep}
     return {
+        "tree": tkey,
         "null": null_n,
         "alt": alt_n,
         "circ": circ,
         "rows": rows,
         "scope": scope,
+        "null_omega": null_omega,
+        # weights of the null's motif probabilities (4 for the nucleotide-frequency models, 61 otherwise), None: from the data
+        "pi": [draw(st.integers(1, 20)) for _ in range(61)] if draw(st.booleans()) else None,
         "rates": [_rate(draw) for _ in range(8)],
-        "lengths": {e: _length(draw) for e in "abc"},
+        "lengths": {e: _length(draw) for e in edges},
     }
 
 
 def exec_codon(case) -> Soft:
-    from cogent3 import get_model, make_aligned_seqs, make_tree
+    from cogent3 import make_aligned_seqs, make_tree
 
     s = Soft("C16/init-codon/")
     rows = {str(k): str(v) for k, v in case["rows"].items()}
     scope = case["scope"]
     circ = str(case["circ"])
+    tkey = case.get("tree", "t3")
+    newick, tmodel = TREES[tkey]
+    edges = tree_edges(tmodel)
+    null_omega = case.get("null_omega")
 
     def build(name):
-        lf = get_model(name, optimise_motif_probs=True).make_likelihood_function(make_tree("(a,b,c)root;"))
+        lf = codon_sm(name).make_likelihood_function(make_tree(newick))
         lf.set_alignment(make_aligned_seqs(rows, moltype="dna", info={"source": "c16"}))
         return lf
 
@@ -697,13 +900,24 @@ def exec_codon(case) -> Soft:
     ok, alt = s.call("alt/build", build, case["alt"])
     if not ok:
         return s
+    _check_tree(null, tkey)
 
     def settings():
+        if case.get("pi") is not None:
+            keys = list(null.get_motif_probs().keys())
+            w = [float(x) for x in case["pi"][: len(keys)]]
+            null.set_motif_probs(dict(zip(keys, [x / sum(w) for x in w])))
         pars = sorted(p for p in null.get_param_names() if p not in ("mprobs", "length"))
         for p, v in zip(pars, case["rates"]):
             null.set_param_rule(p, init=float(v))
-        for e in "abc":
+        for e in edges:
             null.set_param_rule("length", edge=e, init=float(case["lengths"][e]))
+        if null_omega and null_omega["mode"] == "const":
+            null.set_param_rule("omega", is_constant=True, value=float(null_omega["value"]))
+        elif null_omega and null_omega.get("const"):
+            null.set_param_rule("omega", edges=list(null_omega["edges"]), is_constant=True, value=float(null_omega["value"]))
+        elif null_omega:
+            null.set_param_rule("omega", edges=list(null_omega["edges"]), is_independent=False, init=float(null_omega["value"]))
         return pars
 
     ok, pars = s.call("null/settings", settings)
@@ -712,7 +926,16 @@ def exec_codon(case) -> Soft:
     ok, _ = s.call(f"alt/scope:{scope['mode'] if scope else 'none'}", apply_alt_scope, alt, scope)
     if not ok:
         return s
-    s.cls(f"pair:{case['null']}<{case['alt']}", f"alt-scope:{scope['mode'] if scope else 'none'}", "circ:" + circ)
+    s.cls(f"pair:{case['null']}<{case['alt']}", f"alt-scope:{scope['mode'] if scope else 'none'}", "circ:" + circ, f"tree:{tkey}")
+    s.cls("null-pi:random" if case.get("pi") is not None else "null-pi:data")
+    if not null_omega:
+        s.cls("null-omega:free")
+    elif null_omega["mode"] == "const":
+        s.cls("null-omega:constant-1.0" if float(null_omega["value"]) == 1.0 else "null-omega:constant-other")
+    else:
+        s.cls("null-omega:constant-1.0-on-edge-subset" if null_omega.get("const") else "null-omega:two-valued")
+    if scope and scope["mode"] == "split":
+        s.cls("alt-scope:refines-" + ("partitioned-null" if null_omega and null_omega["mode"] == "scoped" else "global-null"))
     ok, nfp = s.call("nfp", lambda: (null.get_num_free_params(), alt.get_num_free_params()))
     if not ok:
         return s
@@ -729,9 +952,20 @@ def exec_codon(case) -> Soft:
     ok, lnl1 = s.call("alt/lnL", lambda: float(alt.lnL))
     if not ok:
         return s
-    what = f"{case['null']} -> {case['alt']} scope {scope} rates {dict(zip(pars, case['rates']))} lengths {case['lengths']}: null.lnL {lnl0!r} alt.lnL {lnl1!r} diff {lnl1 - lnl0:.3e}"
+    what = f"{case['null']} -> {case['alt']} tree {tkey} null omega {null_omega} scope {scope} rates {dict(zip(pars, case['rates']))} lengths {case['lengths']}: null.lnL {lnl0!r} alt.lnL {lnl1!r} diff {lnl1 - lnl0:.3e}"
     s.check(abs(lnl1 - lnl0) <= 1e-6, f"lnL/{circ}/{scirc}", what)
-    s.nontrivial = nfp[1] - nfp[0] >= 2
+
+    def carried():
+        a, b = null.get_motif_probs(), alt.get_motif_probs()
+        dpi = max(abs(float(a[k]) - float(b[k])) for k in a.keys())
+        dlen = max(abs(float(alt.get_param_value("length", edge=e)) - float(case["lengths"][e])) / max(1.0, float(case["lengths"][e])) for e in edges)
+        return dpi, dlen
+
+    ok, d = s.call("alt/read", carried)
+    if ok:
+        s.check(d[0] <= 1e-9, "motif-probs", f"{what}: largest motif-probability difference {d[0]:.3e}")
+        s.check(d[1] <= 1e-9, "lengths", f"{what}: largest relative length difference {d[1]:.3e}")
+    s.nontrivial = nfp[1] - nfp[0] >= 2 or bool(null_omega)
     s.evals = 2
     return s
 
@@ -912,6 +1146,36 @@ def exec_opt(case) -> Soft:
 
 
 # ------------------------------------------------------------------------ app
+APP_BOX = (1e-6, 50.0)  # lower / upper defaults of the model app
+NATSEL_EPS = 1e-6  # "epsilon" in natsel_zhang / natsel_sitehet
+
+
+@st.composite
+def _opt_args(draw, evals=(1, 3, 10, 30)):
+    """optimiser settings of the apps: evaluation limit never fatal; local Powell mostly, sometimes annealing (+ Powell)"""
+    opt = {
+        "max_evaluations": draw(st.sampled_from(list(evals))),
+        "max_restarts": draw(st.sampled_from([0, 1, 5])),
+        "tolerance": draw(st.sampled_from([1e-6, 1e-3])),
+        "local": draw(st.sampled_from([True, True, True, True, None, False])),
+    }
+    if opt["local"] is not True:
+        opt["global_tolerance"] = draw(st.sampled_from([1e-3, 0.1, 1.0]))
+        opt["seed"] = draw(st.integers(0, 10**6))
+    return opt
+
+
+def _opt_kwargs(opt):
+    kw = dict(max_evaluations=int(opt["max_evaluations"]), limit_action="ignore", max_restarts=int(opt["max_restarts"]), tolerance=float(opt["tolerance"]))
+    if opt.get("local", True) is not True:
+        kw.update(local=opt["local"], global_tolerance=float(opt["global_tolerance"]), seed=int(opt["seed"]))
+    return kw
+
+
+def _inside(v, lo, hi):
+    return lo - 1e-9 * max(1.0, abs(lo)) <= v <= hi + 1e-9 * max(1.0, abs(hi))
+
+
 @st.composite
 def app_cases(draw):
     tkey = draw(st.sampled_from(["t3", "t4", "t4", "t5", "t5c"]))
@@ -934,8 +1198,13 @@ def app_cases(draw):
                 "max_evaluations": draw(st.sampled_from([1, 5, 25, 100])),
                 "max_restarts": draw(st.sampled_from([0, 1, 5])),
                 "tolerance": draw(st.sampled_from([1e-6, 1e-3])),
+                # Powell / annealing then Powell / annealing only (the annealer always with an explicit seed)
+                "local": draw(st.sampled_from([True, True, True, True, None, None, False])),
             }
         )
+        if models[-1]["local"] is not True:
+            models[-1]["global_tolerance"] = draw(st.sampled_from([1e-3, 0.1, 1.0]))
+            models[-1]["seed"] = draw(st.integers(0, 10**6))
     # the null may hold some of its rate parameters constant (param_rules of the model app)
     nullpars = list(NUC[chain[0]][2])
     if nullpars and draw(st.booleans()):
@@ -948,8 +1217,11 @@ def app_cases(draw):
         seen = seen or m["free_pi"]
     time_het = None
     last = chain[-1]
-    if NUC[last][2] and draw(st.integers(0, 3)) == 0:
+    if NUC[last][2] and draw(st.integers(0, 2)) == 0:
         time_het = "max"
+        if draw(st.booleans()):  # the documented list-of-edge-sets form
+            edges = tree_edges(tmodel)
+            time_het = {"edges": _subset(draw, edges, 1, len(edges) - 1), "is_independent": draw(st.booleans())}
     return {"tree": tkey, "rows": rows, "models": models, "time_het_last": time_het}
 
 
@@ -970,7 +1242,8 @@ def exec_app(case) -> Soft:
             if any(NUC[x["sm"]][0] == "ns" for x in specs[: i + 1]) and NUC[specs[0]["sm"]][0] == "tr":
                 kw["lower"], kw["upper"] = WIDE_BOUNDS
             if i == len(specs) - 1 and case.get("time_het_last"):
-                kw["time_het"] = case["time_het_last"]
+                th_ = case["time_het_last"]
+                kw["time_het"] = th_ if isinstance(th_, str) else [dict(edges=list(th_["edges"]), is_independent=bool(th_["is_independent"]))]
             if m.get("const"):
                 kw["param_rules"] = [dict(par_name=p, is_constant=True, value=float(v)) for p, v in sorted(m["const"].items())]
             apps.append(
@@ -980,7 +1253,7 @@ def exec_app(case) -> Soft:
                     tree=newick,
                     name=f"m{i}-{m['sm']}",
                     optimise_motif_probs=bool(m["free_pi"]),
-                    opt_args=dict(max_evaluations=int(m["max_evaluations"]), limit_action="ignore", max_restarts=int(m["max_restarts"]), tolerance=float(m["tolerance"])),
+                    opt_args=_opt_kwargs(m),
                     **kw,
                 )
             )
@@ -997,7 +1270,9 @@ def exec_app(case) -> Soft:
         return s
     s.cls(f"app:{kind}", f"tree:{tkey}", "chain:" + "<".join(m["sm"] for m in specs), "time-het-alt" if case.get("time_het_last") else "homogeneous")
     for m in specs:
-        s.cls(f"max_evaluations:{m['max_evaluations']}")
+        s.cls(f"max_evaluations:{m['max_evaluations']}", "optimiser:" + {True: "local", None: "global+local", False: "global"}[m.get("local", True)])
+    if isinstance(case.get("time_het_last"), dict):
+        s.cls("time-het-alt:edge-set", "time-het-alt:edge-set/" + ("independent" if case["time_het_last"]["is_independent"] else "shared"))
     if specs[0].get("const"):
         cross = NUC[specs[0]["sm"]][0] != NUC[specs[1]["sm"]][0]
         s.cls("null:constant-rate-parameter", "null:constant-rate-parameter/" + ("reversible->non-reversible" if cross else "same-class"))
@@ -1031,16 +1306,235 @@ def exec_app(case) -> Soft:
         if ok:
             s.check(lr >= -1e-6, f"negative-LR{th}", f"{what}: LR {lr!r}")
             s.check(abs(lr - 2 * (st_[1][0] - st_[0][0])) <= 1e-9 * max(1.0, abs(lr)), "LR-definition", f"{what}: LR {lr!r} lnLs {st_}")
+    # every fitted value inside the box its model app declared (constants at their declared value)
+    edges = tree_edges(TREES[tkey][1])
+
+    def fitted(i, m):
+        lf = res[f"m{i}-{m['sm']}"].lf
+        out = {(p, e): float(lf.get_param_value(p, edge=e)) for p in NUC[m["sm"]][2] for e in edges}
+        out.update({("length", e): float(lf.get_param_value("length", edge=e)) for e in edges})
+        return out
+
+    for i, m in enumerate(specs):
+        wide = any(NUC[x["sm"]][0] == "ns" for x in specs[: i + 1]) and NUC[specs[0]["sm"]][0] == "tr"
+        lo, hi = WIDE_BOUNDS if wide else APP_BOX
+        with warnings.catch_warnings():
+            warnings.simplefilter("ignore")
+            ok, vals = s.call("read-values", fitted, i, m)
+        if not ok:
+            continue
+        const = m.get("const") or {}
+        bad = [(k, v) for k, v in sorted(vals.items()) if not (_inside(v, float(const[k[0]]), float(const[k[0]])) if k[0] in const else _inside(v, lo, hi))]
+        s.check(not bad, "bounds", f"{what}: model {i} ({m['sm']}) box [{lo}, {hi}] constants {const}: outside {bad[:4]}")
     s.nontrivial = st_[-1][1] - st_[0][1] >= 2
     s.evals = len(specs)
     return s
 
 
+# --------------------------------------------------------------------- natsel
+# the library's own nested-hypothesis apps (cogent3/app/evo.py); foreground clades: sibling tips below a named internal edge
+NATSEL_APPS = ["natsel_neutral", "natsel_timehet", "natsel_timehet", "natsel_sitehet", "natsel_zhang"]
+NATSEL_MODELS = ["MG94HKY", "MG94HKY", "GY94", "Y98", "Y98", "CNFGTR", "H04GK", "GNC"]
+FG_PAIRS = {
+    "t3": [],
+    "t4": [("a", "b", "edge.0")],
+    "t4r": [("a", "b", "edge.0"), ("c", "d", "edge.1")],
+    "t5": [("a", "b", "edge.0"), ("d", "e", "edge.1")],
+    "t5c": [("a", "b", "edge.0")],
+}
+@st.composite
+def natsel_cases(draw):
+    app = draw(st.sampled_from(NATSEL_APPS))
+    tkey = draw(st.sampled_from(["t3", "t4", "t4", "t4r", "t5", "t5c"]))
+    tmodel = TREES[tkey][1]
+    tips = tree_tips(tmodel)
+    case = {
+        "app": app,
+        "sm": draw(st.sampled_from(NATSEL_MODELS if app == "natsel_neutral" else NATSEL_MODELS[:-1])),
+        "tree": tkey,
+        # three taxa: the apps document tree=None as the star tree
+        "pass_tree": tkey != "t3" or draw(st.booleans()),
+        "rows": draw(codon_rows(tips, lengths=(8, 12, 20))),
+        "omp": draw(st.integers(0, 2)) == 0,
+        "opt": draw(_opt_args()),
+    }
+    if app in ("natsel_timehet", "natsel_zhang"):
+        pairs = FG_PAIRS[tkey]
+        if pairs and draw(st.booleans()):
+            t1, t2, stem_edge = draw(st.sampled_from(pairs))
+            stem = draw(st.booleans())
+            clade = True if not stem else draw(st.booleans())
+            fg = ([t1, t2] if clade else []) + ([stem_edge] if stem else [])
+            case.update(tip1=t1, tip2=t2, stem=stem, clade=clade, fg=fg)
+        elif not case["pass_tree"] and draw(st.booleans()):
+            case.update(tip1="a", tip2="b", stem=False, clade=True, fg=["a", "b"])  # no tree: the two named tips
+        else:
+            t1 = draw(st.sampled_from(tips))
+            case.update(tip1=t1, tip2=None, stem=False, clade=True, fg=[t1])
+        case["upper_omega"] = draw(st.sampled_from([20, 20, 5, 2, 50]))
+        if app == "natsel_timehet":
+            case["is_independent"] = draw(st.booleans())
+    elif app == "natsel_sitehet":
+        case["upper_omega"] = draw(st.sampled_from([20.0, 20.0, 5.0, 50.0]))
+    return case
+
+
+def exec_natsel(case) -> Soft:
+    from cogent3 import get_app, make_aligned_seqs
+
+    s = Soft("C16/natsel/")
+    name = str(case["app"])
+    short = name.split("_")[1]
+    tkey = case["tree"]
+    newick, tmodel = TREES[tkey]
+    edges = tree_edges(tmodel)
+    rows = {str(k): str(v) for k, v in case["rows"].items()}
+    ncols = len(next(iter(rows.values()))) // 3
+    opt = case["opt"]
+    mode = {True: "local", None: "global+local", False: "global"}[opt.get("local", True)]
+    upper_omega = float(case.get("upper_omega", 20))
+    fg = list(case.get("fg") or [])
+
+    def build():
+        kw = dict(tree=newick if case["pass_tree"] else None, optimise_motif_probs=bool(case["omp"]), opt_args=_opt_kwargs(opt))
+        if name in ("natsel_timehet", "natsel_zhang"):
+            kw.update(tip1=case["tip1"], tip2=case["tip2"], stem=bool(case["stem"]), clade=bool(case["clade"]), upper_omega=case["upper_omega"])
+        if name == "natsel_timehet":
+            kw["is_independent"] = bool(case["is_independent"])
+        if name == "natsel_sitehet":
+            kw["upper_omega"] = case["upper_omega"]
+        return get_app(name, codon_sm(case["sm"]), **kw)
+
+    ok, app = s.call(f"{short}/build", build)
+    if not ok:
+        return s
+    aln = make_aligned_seqs(rows, moltype="dna", info={"source": "c16"})
+    with warnings.catch_warnings():
+        warnings.simplefilter("ignore")
+        ok, res = s.call(f"{short}/run", lambda: app(aln))
+    if not ok:
+        return s
+    s.cls(f"app:{name}", f"model:{case['sm']}", f"tree:{tkey}" + ("" if case["pass_tree"] else "/not-passed"), f"optimiser:{mode}", f"max_evaluations:{opt['max_evaluations']}")
+    s.cls("motif-probs:free" if case["omp"] else "motif-probs:data")
+    if fg:
+        s.cls(f"foreground-edges:{len(fg)}", "foreground:" + ("stem+clade" if case["stem"] and case["clade"] else "stem" if case["stem"] else "clade" if case["tip2"] else "tip"))
+    what = f"{name}({ {k: v for k, v in case.items() if k != 'rows'} }) {len(rows)} taxa x {ncols} codons"
+    if type(res).__name__ == "NotCompleted":
+        # sense codons and '---' only, tip names from the tree: none of the documented reasons applies
+        s.fail(f"{short}/not-completed", f"{what}: {str(res)[:300]}")
+        return s
+    s.check(type(res).__name__ == "hypothesis_result", f"{short}/result-type", f"{what}: returned {type(res).__name__}")
+
+    def read():
+        with warnings.catch_warnings():
+            warnings.simplefilter("ignore")
+            return res.null.lf, res.alt.lf, float(res.null.lnL), float(res.alt.lnL), int(res.null.nfp), int(res.alt.nfp), float(res.LR), int(res.df)
+
+    ok, got = s.call(f"{short}/read", read)
+    if not ok:
+        return s
+    nlf, alf, l0, l1, n0, n1, lr, df = got
+    what += f": null lnL {l0!r} nfp {n0}, alt lnL {l1!r} nfp {n1}, LR {lr!r}"
+    # degrees of freedom as the apps' docstrings describe the alternates (and tests/test_app/test_evo.py pins)
+    want_df = {"natsel_neutral": 1, "natsel_sitehet": 2, "natsel_zhang": 3}.get(name)
+    if name == "natsel_timehet":
+        want_df = len(fg) if case["is_independent"] else 1
+    s.check(n1 > n0, f"{short}/alt-not-richer", what)
+    s.check(n1 - n0 == want_df and df == want_df, f"{short}/degrees-of-freedom", f"{what}: expected {want_df} extra free parameters, df {df}")
+    s.check(abs(lr - 2 * (l1 - l0)) <= 1e-9 * max(1.0, abs(lr)), f"{short}/LR-definition", what)
+
+    binned = name in ("natsel_sitehet", "natsel_zhang")
+
+    def values(lf):
+        """{(parameter, edge, bin): value} for rate parameters and lengths, bin None for one-bin functions"""
+        bins = list(lf.bin_names) if len(lf.bin_names) > 1 else [None]
+        out = {}
+        for p in lf.get_param_names():
+            if p in ("mprobs", "bprobs"):
+                continue
+            for e in edges:
+                for b in bins if p == "omega" else [None]:
+                    kw = {"edge": e}
+                    if b is not None:
+                        kw["bin"] = b
+                    out[(p, e, b)] = float(lf.get_param_value(p, **kw))
+        bp = [float(x) for x in lf.get_param_value("bprobs")] if bins != [None] else None
+        return bins, out, bp
+
+    with warnings.catch_warnings():
+        warnings.simplefilter("ignore")
+        ok, vn = s.call(f"{short}/values", values, nlf)
+        ok2, va = s.call(f"{short}/values", values, alf)
+    null_omega_over = False
+    tol = 1e-6
+    if ok and ok2:
+        lo, hi = APP_BOX
+        bad = []
+        for tag, (bins, vals, bp) in (("null", vn), ("alt", va)):
+            for (p, e, b), v in sorted(vals.items(), key=str):
+                if p != "omega":
+                    want = (lo, hi)
+                elif name == "natsel_neutral":
+                    want = (1.0, 1.0) if tag == "null" else (lo, hi)
+                elif name == "natsel_timehet":
+                    want = (lo, upper_omega) if tag == "alt" and e in fg else (lo, max(hi, upper_omega))
+                elif b in ("-ve", "0"):
+                    want = (lo, 1 - NATSEL_EPS)
+                elif b in ("neutral", "1"):
+                    want = (1.0, 1.0)
+                elif b == "+ve":
+                    want = (1.0, upper_omega)
+                elif e in fg:  # zhang 2a / 2b on the foreground
+                    want = (1.0, upper_omega)
+                else:  # zhang background: 2a as class 0, 2b as class 1
+                    want = (vals[(p, e, "0")],) * 2 if b == "2a" else (1.0, 1.0)
+                if not _inside(v, *want):
+                    bad.append((tag, p, e, b, v, want))
+            if bp is not None and not (all(-1e-12 <= x <= 1 + 1e-12 for x in bp) and abs(sum(bp) - 1) <= 1e-9):
+                bad.append((tag, "bprobs", None, None, bp, (0.0, 1.0)))
+        s.check(not bad, f"{short}/bounds", f"{what}: outside the bounds the app declares (model, parameter, edge, bin, value, bounds): {bad[:4]}")
+        if name == "natsel_timehet":
+            null_omega_over = any(v > upper_omega * (1 + 1e-9) for (p, e, b), v in vn[1].items() if p == "omega")
+            if null_omega_over:
+                s.cls("timehet:null-omega-above-upper_omega")
+        if binned and vn[2]:
+            # zhang / sitehet start the alt from the null's values with every class probability lowered by epsilon and
+            # new classes of probability epsilon, omega 1 + epsilon (their source says so): the start is next to the null,
+            # not on it. A column's likelihood sum_b p_b L_b falls by at most epsilon * sum_b L_b <= epsilon * sum_b 1/p_b
+            # times itself; doubled for LR and doubled again for slack
+            tol += 4 * ncols * NATSEL_EPS * sum(1.0 / max(x, 1e-12) for x in vn[2])
+            s.cls("binned:LR-tolerance<1e-3" if tol < 1e-3 else "binned:LR-tolerance>=1e-3")
+    circ = "/null-omega-above-upper_omega" if null_omega_over else ""
+    s.check(lr >= -tol, f"{short}/negative-LR{circ}", f"{what} (tolerance {tol:.2e})")
+    if lr > 1e-6:
+        s.cls("LR:positive")
+    elif lr >= -1e-12:
+        s.cls("LR:zero")
+    else:
+        s.cls("LR:within-tolerance")
+
+    # the property's core, without the app's "except Exception: pass": the app's own alt (scoping and bounds as the app set
+    # them) re-initialised from the app's fitted null must succeed and reproduce the null's likelihood. Every parameter of
+    # these alternates has a source in the null, so the fitted alt is as good as a fresh one.
+    if not binned and n1 > n0:
+        with warnings.catch_warnings():
+            warnings.simplefilter("ignore")
+            ok, _ = s.call(f"{short}/initialise_from_nested", alf.initialise_from_nested, nlf)
+            if ok:
+                ok, l2 = s.call(f"{short}/alt-lnL", lambda: float(alf.lnL))
+            if ok:
+                s.check(abs(l2 - l0) <= 1e-6, f"{short}/init-lnL{circ}", f"{what}: alt.lnL right after alt.initialise_from_nested(null) {l2!r} (diff {l2 - l0:.3e})")
+    s.nontrivial = n1 > n0 and int(opt["max_evaluations"]) > 1
+    s.evals = 2
+    return s
+
+
 SUBS = [
     Sub("init", exec_init, strategy=init_cases(), quick=1200, thorough=16 * 6000, shards_quick=12, weight=1.0),
-    Sub("init-codon", exec_codon, strategy=codon_cases(), quick=24, thorough=16 * 100, shards_quick=8, weight=60.0),
+    Sub("init-codon", exec_codon, strategy=codon_cases(), quick=160, thorough=16 * 400, shards_quick=4, weight=120.0),
     Sub("optimise", exec_opt, strategy=opt_cases(), quick=640, thorough=16 * 3000, shards_quick=8, weight=2.0),
     Sub("app", exec_app, strategy=app_cases(), quick=200, thorough=16 * 800, shards_quick=8, weight=4.0),
+    Sub("natsel", exec_natsel, strategy=natsel_cases(), quick=96, thorough=16 * 300, shards_quick=6, weight=110.0),
 ]
 
 KNOWN_PREDICATES = {}
